@@ -57,7 +57,14 @@ class BehavioralTranslatorL2( BehavioralTranslatorL1 ):
 
     # Generate temporary variable declarations
     tmpvars = []
+    mangled = {}
     for (id_, upblk_id), rtype in s.behavioral.tmpvars[m].items():
+      # `up` + `a_b` and `up_a` + `b` would both be declared as __tmpvar__up_a_b
+      other = mangled.setdefault( upblk_id + '_' + id_, ( id_, upblk_id ) )
+      if other != ( id_, upblk_id ):
+        raise TypeError( f"temporary variable {id_} of update block {upblk_id} and "
+                         f"temporary variable {other[0]} of update block {other[1]} of {m} "
+                         f"get the same name in the translation: rename one of them!" )
       assert isinstance(rtype, rt.Wire), \
         f"temporary variable {id_} in upblk {upblk_id} is not a signal!"
       dtype = rtype.get_dtype()
